@@ -65,6 +65,10 @@ def replay(chk, behs, rng, fire_every):
             return x if bare else VU(x)
 
         ammo = m.Ammo(dm, V_(v0), T_(T0))
+        # one long-lived shot (same calculator, weapon, ammunition AND atmosphere objects) fired after every operation: the
+        # launch velocity follows the ammunition's CURRENT state, however often this very pair has been fired before
+        held_atmo = m.Atmo(U.Foot(0), U.InHg(29.92), U.Celsius(15.0), 0.0, U.Celsius(float(T0 + 25)))
+        held_shot = m.Shot(weapon=weapon, ammo=ammo, atmo=held_atmo)
         flag = False
         exp_state = {"mod": Fraction(0), "flag": False}
         key0 = {"v0": v0, "T0": T0, "tunit": tu, "vunit": vu}
@@ -86,6 +90,21 @@ def replay(chk, behs, rng, fire_every):
                 else:
                     m.PreferredUnits.temperature = UA.unit_enum(temp_units[(bi + step + 2) % 4])
                 chk.stratum("display_and_preferences_perturbed")
+            if step > 0 and bi % fire_every == 0:
+                wantv = impl.outcome(lambda: ammo.get_velocity_for_temp(held_atmo.powder_temp) >> U.FPS)
+
+                def launch_held():
+                    try:
+                        return calc.fire(held_shot, U.Foot(16), U.Foot(8)).trajectory[0].velocity >> U.FPS
+                    except m.RangeError as e:
+                        return e.incomplete_trajectory[0].velocity >> U.FPS
+                if wantv[0] == "ok" and wantv[1] > 0:
+                    gotv = impl.outcome(launch_held)
+                    chk.count(1)
+                    chk.stratum("fire_held_shot_after_every_operation")
+                    if gotv[0] != "ok" or abs(gotv[1] - wantv[1]) > 1e-9 * abs(wantv[1]):
+                        chk.violation("C17.LaunchVelocity", {**key0, "history": "/".join(sig[:-1]), "mode": "held-shot"},
+                                      {"beh": b, "step": step, "got": gotv[1], "want": wantv[1]})
             if a == "Calibrate":
                 before = (ammo.temp_modifier, ammo.use_powder_sensitivity)
                 o = impl.outcome(ammo.calc_powder_sens, V_(op["v"]), T_(op["T"]))
@@ -189,7 +208,7 @@ def run(chk: core.Check, replay_path=None, **_):
     chk.traces += len(behs)
     for b in behs[:: max(1, len(behs) // 4)][:4]:
         chk.sample(b)
-    chk.require_strata(["display_and_preferences_perturbed", "bare_numbers", "calibration_rejected", "calibrated_faster", "calibrated_slower", "calibrated_warmer", "calibrated_colder",
+    chk.require_strata(["fire_held_shot_after_every_operation", "display_and_preferences_perturbed", "bare_numbers", "calibration_rejected", "calibrated_faster", "calibrated_slower", "calibrated_warmer", "calibrated_colder",
                         "query_enabled", "query_disabled", "fire_air", "fire_powder_t"])
     chk.rule.append("every behaviour of %d operations of the Powder state machine over v in %s m/s, T in %s C (TLC Gen_Powder), "
                     "temperatures/velocities passed in rotating units; non-trivial = an enabled query whose answer differs "
